@@ -312,7 +312,33 @@ fn do_propagate_fallback_levels(
                 )
             }
         }
-        Expr::NontermRef { .. } | Expr::Command { .. } => expr_id,
+        Expr::NontermRef { fallback, .. } | Expr::Command { fallback, .. }
+            if fallback == fallback_level =>
+        {
+            expr_id
+        }
+        Expr::NontermRef { nonterm, span, .. } => alloc(
+            arena,
+            Expr::NontermRef {
+                nonterm,
+                fallback: fallback_level,
+                span,
+            },
+        ),
+        Expr::Command {
+            cmd,
+            zsh_compadd,
+            span,
+            ..
+        } => alloc(
+            arena,
+            Expr::Command {
+                cmd,
+                zsh_compadd,
+                fallback: fallback_level,
+                span,
+            },
+        ),
         Expr::Sequence { children, span } => {
             let new_children: Vec<ExprId> = children
                 .iter()
@@ -377,11 +403,11 @@ fn do_propagate_fallback_levels(
         }
         Expr::Subword {
             root_id: child,
-            fallback: _,
+            fallback,
             span,
         } => {
             let new_child = do_propagate_fallback_levels(arena, child, fallback_level);
-            if child == new_child {
+            if child == new_child && fallback == fallback_level {
                 expr_id
             } else {
                 alloc(
